@@ -35,6 +35,9 @@ Pool == <<
   D("VDD",   "pat", <<Lit(118), Set(<<Cls("d")>>), Set(<<Cls("d")>>)>>, ""),           \* /v\d\d/   no operator at all
   D("ESC",   "pat", <<Lit(43), Lit(43)>>, ""),                                          \* /\+\+/   same language as the literal "++"
   D("XAB",   "pat", <<Lit(1), Lit(65)>>, ""),                                           \* /\x01A/
+  D("AB",    "str", Lits(<<97, 98>>), ""),                                      \* "ab"
+  D("ABC1",  "pat", <<AltF(<< <<Lit(97), Lit(98)>>, <<Lit(99)>> >>)>>, ""),       \* /(ab|c)/   with ABD1 and "ab": one literal, two patterns,
+  D("ABD1",  "pat", <<AltF(<< <<Lit(97), Lit(98)>>, <<Lit(100)>> >>)>>, ""),      \* /(ab|d)/   nothing else in common
   D("IX",    "pat", <<Lit(105), Set(<<LowR>>)>>, ""),                         \* /i[a-z]/
   D("BSL",   "inl", Lits(<<92>>), ""),                                         \* "\\"   one character: \
   D("DIGS",  "pat", <<Plus(<<Set(<<Cls("d")>>)>>)>>, ""),                      \* /\d+/  same language as NUM
